@@ -181,9 +181,8 @@ class ValidationContext:
         for attr in iter_class_slots(self):
             setattr(context, attr, getattr(self, attr))
 
-        context.errors = self.errors.copy()
-        context.id_map = self.id_map.copy()
-        context.identities = self.identities.copy()
+        # The collected errors and the document-wide identity maps are shared
+        # with the copy: what is found in a subtree belongs to the whole run.
         context.inherited = self.inherited.copy()
         context.id_list = self.id_list if self.id_list is None else self.id_list.copy()
 
